@@ -713,7 +713,7 @@ def run(ctx):
 # end to end: the brush binary (and bash as the oracle of the method), full textual dump of the parent
 
 E2E_SETUP = r"""
-gs=scalar; export ge=exported; readonly gr=ro; declare -i gi=5; ga=(p q r); declare -A gh=([k]=v [k2]=v2)
+e2ei=2; gs=scalar; export ge=exported; readonly gr=ro; declare -i gi=5; ga=(p q r); declare -A gh=([k]=v [k2]=v2)
 F() { echo F; }; G() { local l=1; echo G; }
 alias ll='ls -l' e2e=true
 trap 'echo int' INT; trap '' TERM; trap ': usr1' USR1
@@ -753,6 +753,7 @@ E2E_MUTS = [
     "exec 7>&-", "exec 9>/dev/null", "exec 8<&-", "exec 6<&0", "exec 2>/dev/null", "exec >/dev/null", "exec </dev/null",
     "complete -r e2ecmd", "complete -W x newcmd", "hash -r", "enable -n test",
     "exit 3", "exit", "false", "return 2>/dev/null", "break 2>/dev/null", "echo out", "echo err >&2", ":",
+    "continue 2>/dev/null", "return 4", "{ set -e; false; }",
 ]
 E2E_WORLD = ("umask", "ulimit")
 E2E_CTXS = {
@@ -768,7 +769,16 @@ E2E_CTXS = {
     "fn_paren": "W() { %s; }; ( W ); unset -f W",
     "paren_pipe": "( { %s; } | cat )",
     "cmdsub_paren": ': "$( ( %s ) )"',
+    # a background job collected by a job-spec wait, the parent at top level / in a loop / in a function / under set -e
+    # (e2ei is 2 and e2ef is unset before and after exactly when the loop / function ran to its end)
+    "bg_spec": "{ %s; } & wait %%1",
+    "bg_spec2": "{ %s; } & { exit 5; } & wait %%1 %%2",
+    "bg_loop_spec": "for e2ei in 1 2; do { %s; } & wait %%%%; done",
+    "bg_func_spec": 'W() { { %s; } & wait %%1; e2ef=done; }; e2ef=; W; [ "$e2ef" = done ] && unset e2ef; unset -f W',
+    "bg_errexit_spec": "set -e; { %s; } & wait %%1; set +e",
 }
+E2E_NOBASH = ("bg_errexit_spec",)     # bash's `wait %N` returns the job's status, which `set -e` then acts on
+E2E_CF = ["exit 3", "exit 0", "break", "continue", "return 4", "set -e; false", "false", "x=1; break 2", "exit"]
 DROP_VARS = re.compile(r"^declare -[-\w]+ (_|PIPESTATUS|BASH_CMDS|BASH_COMMAND|LINENO|RANDOM|SRANDOM|SECONDS|EPOCHSECONDS|EPOCHREALTIME|"
                        r"BASHPID|BASH_LINENO|BASH_ARGC|BASH_ARGV|BASH_SOURCE|FUNCNAME|COPROC|COPROC_PID|BASH_SUBSHELL|PPID)\b")
 
@@ -911,11 +921,16 @@ def end_to_end(ctx, root):
         if not ctx.quick:
             for c in rest:
                 jobs.append((root, "brush", c, [m], "plain"))
+    # control flow in a background job x every job-spec synchronisation / frame
+    for c in ("bg", "bg_spec", "bg_spec2", "bg_loop_spec", "bg_func_spec", "bg_errexit_spec"):
+        for m in E2E_CF:
+            jobs.append((root, "brush", c, [m], "plain"))
+            jobs.append((root, "brush", c, ["gs=job", m, "gs=after"], "plain"))
     for _ in range(ctx.size(200, 2500)):
         c = rng.choice([k for k in E2E_CTXS if k != "stage"])
         ms = [rng.choice(E2E_MUTS) for _ in range(rng.randint(2, 7))]
         jobs.append((root, "brush", c, ms, "plain"))
-    safe_par = [m for m in E2E_MUTS if not m.startswith(("exit", "exec >", "exec 2>", "exec <", "set -e", "return", "break",
+    safe_par = [m for m in E2E_MUTS if not m.startswith(("exit", "exec >", "exec 2>", "exec <", "set -e", "{ set -e", "return", "break", "continue",
                                                           "set -x", "trap : ERR", "echo", "false", "PATH="))]
     for _ in range(ctx.size(60, 600)):
         sub = [rng.choice(E2E_MUTS) for _ in range(rng.randint(1, 5))]
@@ -944,7 +959,7 @@ def end_to_end(ctx, root):
         jobs.append((root, "brush", "lastpipe", st, "lp"))
     # the oracle of the method: bash must show no difference on the same scripts (sample)
     njobs = len(jobs)
-    ojobs = [(r, "bash", c, m, md) for (r, _, c, m, md) in jobs[::ctx.size(4, 6)]]
+    ojobs = [(r, "bash", c, m, md) for (r, _, c, m, md) in jobs[::ctx.size(4, 6)] if c not in E2E_NOBASH]
     res = lib.pmap(e2e_one, jobs + ojobs, workers=8)
     late = [i for i, r in enumerate(res) if r[0] == "timeout"]
     if late:        # a busy machine, or a real hang: ask again with a long limit, a few at a time
